@@ -159,10 +159,46 @@ def emit_subject_methods(d: Decl):
     return m
 
 
+def emit_serde_arb(d: Decl):
+    """extra (methods, items) for declarations deriving Serialize+Deserialize and/or Arbitrary"""
+    der = set(d.derives)
+    caps = d.inner.caps
+    methods, items = [], []
+    if {"Serialize", "Deserialize"} <= der:
+        ord_ok = "Ord" in caps
+        rder = "::serde::Serialize, ::serde::Deserialize, Debug" + (", PartialEq, Eq, PartialOrd, Ord" if ord_ok else "")
+        items.append('#[derive(%s)]\n#[serde(rename = "%s")]\npub struct RefT(pub Inner);' % (rder, d.type_name))
+        items.append("impl nvrt::serde_mon::SerdeGlue for G { type T = TT; type R = RefT; type I = Inner; fn t_inner(t: TT) -> nvrt::Value { inner_of(t) } "
+                     "fn r_inner(r: RefT) -> nvrt::Value { nvrt::Conv::to_value(&r.0) } fn t_make(raw: &nvrt::Value) -> Option<TT> { mk(raw) } fn r_make(i: Inner) -> RefT { RefT(i) } }")
+        t_ord = {"Ord", "PartialOrd", "Eq", "PartialEq"} <= der and ord_ok
+        key_de = "nvrt::serde_mon::de_key::<G>(f, b)" if t_ord else "return None"
+        key_ref = "nvrt::serde_mon::de_key_ref::<G>(f, b)" if t_ord else "return None"
+        methods.append("fn de(&self, f: nvrt::Fmt, p: nvrt::Pos, b: &[u8]) -> Option<nvrt::DeObs> { Some(match p { nvrt::Pos::MapKey => %s, _ => nvrt::serde_mon::de::<G>(f, p, b) }) }" % key_de)
+        methods.append("fn de_ref(&self, f: nvrt::Fmt, p: nvrt::Pos, b: &[u8]) -> Option<Result<Vec<nvrt::Value>, String>> { Some(match p { nvrt::Pos::MapKey => %s, _ => nvrt::serde_mon::de_ref::<G>(f, p, b) }) }" % key_ref)
+        if ord_ok:
+            methods.append("fn docs_for(&self, f: nvrt::Fmt, p: nvrt::Pos, raw: &nvrt::Value) -> Option<Vec<Vec<u8>>> { Some(nvrt::serde_mon::docs_for::<G>(f, p, raw)) }")
+        else:
+            methods.append("fn docs_for(&self, f: nvrt::Fmt, p: nvrt::Pos, raw: &nvrt::Value) -> Option<Vec<Vec<u8>>> { if p == nvrt::Pos::MapKey { return None; } Some(nvrt::serde_mon::docs_for_noord::<G>(f, p, raw)) }")
+        methods.append("fn ser(&self, f: nvrt::Fmt, raw: &nvrt::Value) -> Option<nvrt::SerObs> { nvrt::serde_mon::ser::<G>(f, raw) }")
+        methods.append("fn ser_trace(&self, raw: &nvrt::Value) -> Option<(Vec<String>, Vec<String>)> { nvrt::serde_mon::trace::<G>(raw) }")
+        methods.append("fn de_probe(&self) -> Option<Vec<String>> { Some(nvrt::serde_mon::probe::<G>()) }")
+    if "Arbitrary" in der:
+        methods.append("""fn arb(&self, bytes: &[u8]) -> Option<nvrt::ArbObs> {
+            Some(match nvrt::guarded(|| { let mut u = ::arbitrary::Unstructured::new(bytes); <TT as ::arbitrary::Arbitrary>::arbitrary(&mut u) }) {
+                Err(p) => nvrt::ArbObs::Panic(p),
+                Ok(Err(e)) => nvrt::ArbObs::ArbErr(e.to_string()),
+                Ok(Ok(t)) => nvrt::ArbObs::Ok(inner_of(t)),
+            })
+        }""")
+    return methods, items
+
+
 def emit_module(d: Decl, extra_methods=None, extra_items=None):
     T = d.type_name
     vname, _ = _vname_fn(d)
-    methods = emit_subject_methods(d) + (extra_methods or [])
+    sm, si = emit_serde_arb(d)
+    methods = emit_subject_methods(d) + sm + (extra_methods or [])
+    extra_items = si + list(extra_items or [])
     lines = []
     lines.append("pub mod %s {" % d.id)
     lines.append("    #![allow(dead_code, unused_imports, unused_variables, unused_mut, clippy::all)]")
